@@ -90,8 +90,9 @@ type logger struct {
 
 type cfg struct {
 	Loggers []logger
-	Root    bool
-	RootRaw string // tags attribute on root (fault)
+	Root     bool
+	RootKind string // Logger | AsyncLogger: the configured root is started and stopped like every other logger
+	RootRaw  string // tags attribute on root (fault)
 	Fault   string
 }
 
@@ -151,6 +152,7 @@ func genCfg(t *rapid.T) cfg {
 		c.Loggers = append(c.Loggers, lg)
 	}
 	c.Root = rapid.Bool().Draw(t, "root")
+	c.RootKind = rapid.SampledFrom([]string{"Logger", "AsyncLogger"}).Draw(t, "rootKind")
 	// rapid's integer ranges are biased towards small values: draw the ~35% fault rate from a table
 	c.Fault = rapid.SampledFrom([]string{"", "", "", "", "", "", "", "", "", "", "", "", "", "dup-across-loggers", "dup-across-loggers", "root-tags", "root-tags", "empty-tags", "bad-wildcard", "bad-wildcard"}).Draw(t, "fault")
 	if c.Fault != "" {
@@ -215,6 +217,9 @@ func (c cfg) toMap() map[string]string {
 	if c.Root {
 		m["appender.recroot.type"] = "Rec"
 		m["logger.root.type"] = "Logger"
+		if c.RootKind == "AsyncLogger" {
+			m["logger.root.type"], m["logger.root.bufferFullPolicy"], m["logger.root.bufferSize"] = "AsyncLogger", "Block", "100"
+		}
 		m["logger.root.appenderRef.ref"] = "recroot"
 		if c.RootRaw != "" {
 			m["logger.root.tags"] = c.RootRaw
@@ -228,7 +233,7 @@ func (c cfg) desc() string {
 	for _, lg := range c.Loggers {
 		parts = append(parts, fmt.Sprintf("%s:%q level=%q", lg.Name, lg.Raw, lg.Level))
 	}
-	return fmt.Sprintf("loggers{%s} root=%v rootTags=%q fault=%q", strings.Join(parts, " "), c.Root, c.RootRaw, c.Fault)
+	return fmt.Sprintf("loggers{%s} root=%v rootKind=%s rootTags=%q fault=%q", strings.Join(parts, " "), c.Root, c.RootKind, c.RootRaw, c.Fault)
 }
 
 // oracle: independent longest-prefix matcher. Returns the serving logger's name ("root" if none)
